@@ -360,6 +360,7 @@ def build_tables(case, out):
         itab = itab if isinstance(itab, dict) else {}
         ipair = (out.get("pairs") or {}).get(dtype) if isinstance(out, dict) else None
         ipair = ipair if isinstance(ipair, dict) else {}
+        ipair = {k_: v_ for k_, v_ in ipair.items() if isinstance(v_, dict)}  # a failed observation is a str
         rows, fragile = [], []
         for f in names:
             xs = cols[f]
@@ -997,9 +998,9 @@ def gen_quali(rng, n, y, k, allow_nan):
 
 def gen_case(rng, kind=None):
     task = rng.choice(["classification", "classification", "regression"])
-    # (never fewer rows than columns of the association table: with as many rows as measure keys
-    #  pandas' DataFrame.apply relabels the keys with the row labels and nothing is selected)
     n = rng.choice([12, 16, 20, 30, 45, 60])
+    if rng.random() < 0.12:  # tiny frames, in particular as many rows as columns of the association table
+        n = rng.choice([4, 5, 5, 6, 6, 7, 8, 9, 10, 11])
     y = gen_y(rng, n, task)
     nq, nl = rng.choice([(0, 3), (3, 0), (4, 2), (5, 3), (6, 0), (2, 4), (7, 2)])
     quanti = gen_quanti(rng, n, y, nq)
@@ -1052,6 +1053,68 @@ def gen_case(rng, kind=None):
     if rng.random() < 0.03:
         n_best = rng.choice([0, nf + 2])
     return mk_case(task, y, quanti, quali, n_best, qm, lm, qf, lf, kw)
+
+
+def table_columns(t):
+    """number of columns of the association table of one dtype (apply_measures): dtype, pct_nan,
+    pct_mode + mode once a feature passes the nan test, and the keys of every measure reached"""
+    cells = pyref_cells(t)
+    n = t["n"]
+    cols = 2
+    if any(Fr(r["cnt_nan"], n) < t["tnan"] for r in t["rows"]):
+        cols += 2
+    chi2_seen = False
+    for j, k in enumerate(t["ms"]):
+        if not any(c[j] != "missing" for c in cells.values() if len(c) > j):
+            continue
+        if k == "iqr":
+            cols += 4
+        elif k in ("chi2", "cramerv", "tschuprowt"):
+            cols += (0 if chi2_seen else 1) + (0 if k == "chi2" else 1)
+            chi2_seen = True
+        else:
+            cols += 1
+    return cols
+
+
+def gen_tiny_case(rng):
+    """as many rows as columns of the association table of one dtype (default and custom measure
+    lists, both dtypes): DataFrame.apply(result_type='expand') relabelled the measures there"""
+    case = None
+    for _ in range(40):
+        task = rng.choice(["classification", "classification", "regression"])
+        dtype = rng.choice(["float", "str"])
+        qm = lm = None
+        kw = {}
+        if task == "classification" and rng.random() < 0.5:
+            if dtype == "float":
+                qm = rng.choice([["R"], ["kruskal", "R"], ["iqr", "kruskal"]])
+                if len(qm) == 2 and qm[0] != "iqr":
+                    kw["thresh_kruskal"] = 1e9
+            else:
+                lm = rng.choice([["cramerv"], ["chi2", "cramerv"], ["cramerv", "tschuprowt"]])
+                if len(lm) == 2:
+                    kw[THRESH_KW[lm[0]]] = 1e9 if lm[0] == "chi2" else 5.0
+        n = rng.choice([5, 6, 7, 9])
+        for _try in range(3):
+            y = gen_y(rng, n, task)
+            if task == "classification":
+                y2 = [v % 2 if not isinstance(v, str) else v for v in y]
+                y = y2 if rng.random() < 0.5 and len(set(y2)) >= 2 else y  # never a one-class target
+            nq, nl = (rng.choice([2, 3]), rng.choice([0, 2])) if dtype == "float" else (rng.choice([0, 2]), rng.choice([2, 3]))
+            yn = [int(v) for v in ynum(y)]
+            quanti = [[yn[i] * rng.choice([1, 2]) + rng.randint(0, 3) for i in range(n)] for _ in range(nq)]
+            quali = [["ab"[(yn[i] + (rng.random() < 0.3)) % 2] + rng.choice(["", "", "x"]) for i in range(n)]
+                     for _ in range(nl)]
+            case = mk_case(task, y, quanti, quali, rng.choice([1, 2, 3]), qm, lm, None, None, kw)
+            t = build_tables(case, {}).get(dtype)
+            if t is None:
+                break
+            cols = table_columns(t)
+            if cols == n:
+                return case
+            n = cols
+    return case
 
 
 def gen_boundary_case(rng):
@@ -1338,6 +1401,12 @@ class C14(Prop):
 
     def corpus(self):
         cs = []
+        # minimised failing cases kept from earlier runs (corpus/findings/O41_c14_*.json), run first
+        import glob
+        import json
+        import os
+        for p in sorted(glob.glob(os.path.join(C.VERIF, "corpus", "findings", "O41_c14_*.json"))):
+            cs.append(json.load(open(p))["case"])
         # O11: exact copy of the target / negated / monotone, RegressionSelector defaults
         y = [0.0, 1.0, 2.0, 3.0, 4.0, 5.0, 6.0, 7.0, 8.0, 9.0]
         cs.append(mk_case("regression", y, [list(y), [-v for v in y], [v ** 3 for v in y],
@@ -1361,7 +1430,8 @@ class C14(Prop):
         return ([gen_case(rng) for _ in range(n)] + [gen_boundary_case(rng) for _ in range(nb)]
                 + [gen_two_measure_case(rng) for _ in range(ns)]
                 + [gen_quali_filter_case(rng) for _ in range(ns)]
-                + [gen_iqr_case(rng) for _ in range(ns)])
+                + [gen_iqr_case(rng) for _ in range(ns)]
+                + [gen_tiny_case(rng) for _ in range(12 if tier == "quick" else 120)])
 
     def search_cases(self, rng, neighbours, rnd):
         return [gen_case(rng) for _ in range(60)] + [gen_two_measure_case(rng) for _ in range(10)]
@@ -1401,7 +1471,11 @@ class C14(Prop):
         for tag, d, m in fails:
             sig = None
             ms = tabs[d]["ms"] if d in tabs else []
-            if tag == "error" and out["err"] == "internal":
+            if (tag in ("maximal", "sorted", "count") and d in tabs and table_columns(tabs[d]) == tabs[d]["n"]
+                    and not any(f in tabs[d]["names"] for f in (out["sel"] or []))):
+                # O41 (fixed by /repo 0e1ef11): as many rows as columns of the association table
+                sig = "rows_equal_measure_columns_selects_nothing"
+            elif tag == "error" and out["err"] == "internal":
                 msg = out.get("err_msg") or ""
                 if "UnboundLocalError" in msg and any(
                         sum(1 for k in t["ms"] if k in ("chi2", "cramerv", "tschuprowt")) >= 2 for t in tabs.values()):
@@ -1516,7 +1590,7 @@ class C14(Prop):
                 continue
             n = c["n"]
             for size in (n // 2, n // 4, 2, 1):
-                if size < 1 or n - size < 12:
+                if size < 1 or n - size < 4:
                     continue
                 for start in range(0, n, size):
                     keep = [i for i in range(n) if not start <= i < start + size]
